@@ -2,7 +2,7 @@
    The oracle holds the values of the numeric maps recomputed by the harness from the recorded
    arguments; the model recomputes the arguments exactly and both are compared. *)
 From Coq Require Import List ZArith QArith Qabs Bool Arith Floats String Ascii.
-From EpyV Require Import Lib.Prelude Model.Kernel Model.Pulse Tie.Kernel Proofs.PulseRun.
+From EpyV Require Import Lib.Prelude Model.Kernel Model.Pulse Tie.Kernel Proofs.PulseBase Proofs.PulseRun.
 Import ListNotations.
 Open Scope Q_scope.
 
@@ -98,10 +98,18 @@ Definition inv_b (cfg : pcfg) (s : st pworld) : bool :=
   && Nat.eqb (List.length (filter e_live (queue s))) (List.length (pc_nodes cfg))
   && Nat.eqb (List.length (ids s)) (pw_nposted (world s)).
 
-(* the hypothesis of the C20 theorems on the oracle (Proofs.PulseRun.good_b_good: good (fun x => x + eps)): every
-   posting time handed to the model is not before the caller's time and at most 5e-6 (+1e-12) above the exact
-   argument; checked on every run, whatever rounding the implementation applies *)
-Definition rounding_slack : Q := 5000001 # 1000000000000.
+(* the hypotheses of the C20 theorems on the oracle, checked on every run:
+   (Proofs.PulseRun.good_b_good: good (fun x => x + eps)) every posting time handed to the model is not before the
+   caller's time and at most eps above the exact argument, with eps = 1e-9 of the PERIOD (an absolute slack would
+   admit shifts of whole phase quanta when the period is short);
+   (Proofs.PulseBase.round_one_b_ok: round_one) round(x, 5) of an argument that is exactly 1 is 1.
+   Over and above the hypotheses, the tie holds the repaired setFiringTime (F13) to what it does: the time posted
+   is the argument itself, so it is not more than eps BELOW the exact argument either. *)
+Definition rounding_slack (cfg : pcfg) : Q := (1 # 1000000000) * Qabs (pc_period cfg).
+Definition posted_close (eps : Q) (l : list req) : bool :=
+  forallb (fun r => match rq_kind r with
+                    | RT => Qle_bool (Qabs (rq_ans r - rq_arg r)) eps
+                    | _ => true end) l.
 
 Definition check_case (c : case_t) : bool :=
   let r := model_run c in
@@ -110,7 +118,8 @@ Definition check_case (c : case_t) : bool :=
   o_ok c && negb (r_stuck r) && negb (pw_bad w)
   && Nat.eqb (List.length (pw_oracle w)) 0 && Nat.eqb (List.length (pw_orders w)) 0
   && Nat.eqb (errors_of (r_out r)) 0
-  && good_b rounding_slack (pw_reqs w)
+  && good_b (rounding_slack (c_cfg c)) (pw_reqs w) && posted_close (rounding_slack (c_cfg c)) (pw_reqs w)
+  && round_one_b (pw_reqs w)
   && list_eqb arg_eqb (map (fun q => (rq_kind q, rq_arg q)) (rev (pw_reqs w))) (o_args c)
   && list_eqb snap_eqb (queries_of (r_out r)) (o_snaps c)
   && list_eqb tap_eqb (taps_of (r_out r)) (o_taps c)
@@ -130,7 +139,8 @@ Definition diagnose (c : case_t) : list bool :=
   let '(phis, w) := final_phases (c_cfg c) (clock s) (world s) in
   [ o_ok c; negb (r_stuck r); negb (pw_bad w);
     Nat.eqb (List.length (pw_oracle w)) 0; Nat.eqb (List.length (pw_orders w)) 0;
-    Nat.eqb (errors_of (r_out r)) 0; good_b rounding_slack (pw_reqs w);
+    Nat.eqb (errors_of (r_out r)) 0; good_b (rounding_slack (c_cfg c)) (pw_reqs w);
+    posted_close (rounding_slack (c_cfg c)) (pw_reqs w); round_one_b (pw_reqs w);
     list_eqb arg_eqb (map (fun q => (rq_kind q, rq_arg q)) (rev (pw_reqs w))) (o_args c);
     list_eqb snap_eqb (queries_of (r_out r)) (o_snaps c);
     list_eqb tap_eqb (taps_of (r_out r)) (o_taps c);
